@@ -12,6 +12,15 @@ class Rej(Exception):
     pass
 
 
+class SideRej(Rej):
+    """rejection by a side condition (freshness, positivity, capture, constraint, well-formedness) — as opposed to a stack
+    or typing error.  In LENIENT mode these checks are skipped: the generators use it to continue a walk *as if* a weakened
+    checker had accepted, so that a checker that lost a side condition is driven on to an unsound conclusion."""
+
+
+LENIENT = False
+
+
 def e_fresh(p, e):
     k = p[0]
     if k == 'evar':
@@ -121,12 +130,12 @@ def apply_esubst(p, x, plug):
     if k == 'ex':
         if p[1] == x:
             return p
-        if not e_fresh(plug, p[1]):
-            raise Rej('captureE')
+        if not e_fresh(plug, p[1]) and not LENIENT:
+            raise SideRej('captureE')
         return ('ex', p[1], apply_esubst(p[2], x, plug))
     if k == 'mu':
-        if not s_fresh(plug, p[1]):
-            raise Rej('captureS')
+        if not s_fresh(plug, p[1]) and not LENIENT:
+            raise SideRej('captureS')
         return ('mu', p[1], apply_esubst(p[2], x, plug))
     if k == 'mv' and x in p[2]:
         return p
@@ -142,14 +151,14 @@ def apply_ssubst(p, X, plug):
     if k in ('imp', 'app'):
         return (k, apply_ssubst(p[1], X, plug), apply_ssubst(p[2], X, plug))
     if k == 'ex':
-        if not e_fresh(plug, p[1]):
-            raise Rej('captureE')
+        if not e_fresh(plug, p[1]) and not LENIENT:
+            raise SideRej('captureE')
         return ('ex', p[1], apply_ssubst(p[2], X, plug))
     if k == 'mu':
         if p[1] == X:
             return p
-        if not s_fresh(plug, p[1]):
-            raise Rej('captureS')
+        if not s_fresh(plug, p[1]) and not LENIENT:
+            raise SideRej('captureS')
         return ('mu', p[1], apply_ssubst(p[2], X, plug))
     if k == 'mv' and X in p[3]:
         return p
@@ -165,18 +174,19 @@ def instantiate(p, ids, plugs):
     if k == 'mv':
         if p[1] in ids:
             q = plugs[ids.index(p[1])]
-            for e in p[2]:
-                if not e_fresh(q, e):
-                    raise Rej('constraint')
-            for s in p[3]:
-                if not s_fresh(q, s):
-                    raise Rej('constraint')
-            for s in p[4]:
-                if not positive(q, s):
-                    raise Rej('constraint')
-            for s in p[5]:
-                if not negative(q, s):
-                    raise Rej('constraint')
+            if not LENIENT:
+                for e in p[2]:
+                    if not e_fresh(q, e):
+                        raise SideRej('constraint')
+                for s in p[3]:
+                    if not s_fresh(q, s):
+                        raise SideRej('constraint')
+                for s in p[4]:
+                    if not positive(q, s):
+                        raise SideRej('constraint')
+                for s in p[5]:
+                    if not negative(q, s):
+                        raise SideRej('constraint')
             return q
         return p
     if k in ('imp', 'app'):
@@ -270,8 +280,8 @@ class Mach:
         elif k == 'cleanmv':
             S.append(('P', phi(ins[1])))
         elif k == 'metavar':
-            if any(h in ins[2] for h in ins[6]):
-                raise Rej('mvWF')
+            if any(h in ins[2] for h in ins[6]) and not LENIENT:
+                raise SideRej('mvWF')
             S.append(('P', ('mv',) + tuple(ins[1:7])))
         elif k in ('implies', 'app'):
             r = self.pop_pat(); l = self.pop_pat()
@@ -280,18 +290,22 @@ class Mach:
             S.append(('P', ('ex', ins[1], self.pop_pat())))
         elif k == 'mu':
             p = self.pop_pat()
-            if not positive(p, ins[1]):
-                raise Rej('muNotPositive')
+            if not positive(p, ins[1]) and not LENIENT:
+                raise SideRej('muNotPositive')
             S.append(('P', ('mu', ins[1], p)))
         elif k == 'esubst':
             p = self.pop_pat(); plug = self.pop_pat()
-            if not is_meta(p) or plug == ('evar', ins[1]) or e_fresh(p, ins[1]):
+            if not is_meta(p):
                 raise Rej('substWF')
+            if (plug == ('evar', ins[1]) or e_fresh(p, ins[1])) and not LENIENT:
+                raise SideRej('substWF')
             S.append(('P', ('esub', p, ins[1], plug)))
         elif k == 'ssubst':
             p = self.pop_pat(); plug = self.pop_pat()
-            if not is_meta(p) or plug == ('svar', ins[1]) or s_fresh(p, ins[1]):
+            if not is_meta(p):
                 raise Rej('substWF')
+            if (plug == ('svar', ins[1]) or s_fresh(p, ins[1])) and not LENIENT:
+                raise SideRej('substWF')
             S.append(('P', ('ssub', p, ins[1], plug)))
         elif k == 'prop1':
             S.append(('T', PROP1))
@@ -310,8 +324,10 @@ class Mach:
             S.append(('T', p1[2]))
         elif k == 'gen':
             p = self.pop_proved()
-            if p[0] != 'imp' or not e_fresh(p[2], ins[1]):
+            if p[0] != 'imp':
                 raise Rej('gen')
+            if not e_fresh(p[2], ins[1]) and not LENIENT:
+                raise SideRej('gen')
             S.append(('T', ('imp', ('ex', ins[1], p[1]), p[2])))
         elif k == 'subst':
             p = self.pop_proved(); plug = self.pop_pat()
